@@ -38,6 +38,8 @@ SNIPPETS = ["{\n;k\x01\n;:1 'c':2}", "{\n;key\n;:v}", "{'a\x01':1}", '{"a\x0bb":
             ']\n', '}\n', 'global_\n', 'stop_\n', '_v data_x\n', "_k {'a':1}:2\n", '_l [1 2]]\n', ';\\\n;x\n;\n', ';> \\\\\n> a\\\n>b\n;\n', '_n ' + '9' * 30 + 'e' + '9' * 12 + '\n']
 BAD_BYTES = [b'\x00', b'\xff', b'\xfe', b'\xc0\x80', b'\xed\xa0\x80', b'\xed\xb0\x80', b'\xef\xbb\xbf', b'\xef\xbf\xbe', b'\xf4\x90\x80\x80',
              b'\xe2\x82', b'\x80', b'\x1a', b'\x0b', b'\x0c', b'\x7f', b'\xff\xfe', b'\xfe\xff', b'\x00\x00\xfe\xff', b'\xf0\x9f\x98', b'\x85', b'\xc2\x85']
+TINY = [b'\r', b'\n', b'\r\n', b' ', b'\t', b'#', b'_', b';', b"'", b'"', b'[', b'{', b':', b'data_', b'x', b'\x00', b'\x1a', b'\x7f',
+        b'\xef\xbb\xbf', b'\xff\xfe', b'\xfe\xff', b'\xff\xfe\x00\x00', b'\x00\x00\xfe\xff', b'\xef', b'\xef\xbb', b'\xff', b'\r\x00', b'\x00\r']
 CODECS = ['utf-8', 'utf-8', 'utf-8', 'utf-8', 'utf-16-le', 'utf-16-be', 'utf-32-le', 'utf-32-be', 'latin-1']
 REPO_FILES = None
 
@@ -79,6 +81,9 @@ def seed_input(rng):
             "save_s _in 1 save_s2 _in 2 save_ save_\n_t {'a':1 'b' 2 :3}\n_l [1 [2 3] {\"k\":[}]\n;text\nloop_ stop_ global_\ndata_d\n_dup 1\n" \
             "loop_\n_p _p 1 2\ndata_\n_e 1\n_" + rng.choice(['', 'a\n', "v '''x\n"])
         label = 'defects'
+    elif r < 0.78:
+        # degenerate inputs: nothing, or one to three of the pieces the first-character / signature logic looks at
+        return 'tiny', b''.join(rng.choice(TINY) for _ in range(rng.choice([0, 1, 1, 2, 2, 3])))
     else:
         n = rng.choice([3, 10, 40, 200])
         pool = TOKENS + SNIPPETS if rng.random() < 0.5 else TOKENS
@@ -286,6 +291,9 @@ def exercise(ctx, L, cif, i, label, deep=False):
 def one_run(ctx, L, data, o, target_kind, policy, i, label, handler=False, chunk=0, fail_at=0, syntax=False, deep=False, answers=None):
     """-> (rc, errors, problems); exercises and destroys the CIF"""
     pre = prepopulated(L) if target_kind == 'existing' else None
+    if target_kind == 'again':
+        first = parsing.parse(L, data, opts_of(o), 'new', 'accept')
+        pre = first.cif if first.cif else L.create()[1]
     target = None if target_kind == 'none' else ('new' if target_kind == 'new' else pre)
     fn = (lambda k, kind, payload: answers[k % len(answers)]) if (handler and answers) else None
     res = parsing.parse(L, data, opts_of(o), target, policy, with_handler=handler, chunk=chunk, fail_at=fail_at, syntax=syntax, handler_answer_fn=fn)
@@ -313,7 +321,8 @@ def run_case(ctx, L, i):
     label, base = seed_input(rng)
     data, ops = mutate(rng, base)
     o = option_vector(rng)
-    target_kind = rng.choice(['new', 'new', 'none', 'existing'])
+    # 'again': the target already holds what an earlier parse of the same bytes stored (every block a duplicate)
+    target_kind = rng.choice(['new', 'new', 'new', 'none', 'none', 'existing', 'existing', 'again'])
     handler = rng.random() < 0.3
     # one input in three with a handler also steers the parse: a fixed table of navigation answers, indexed by
     # callback number, so that every run of the family gives the same answers
